@@ -383,10 +383,19 @@ func sanitize(s string) string {
 	return regexp.MustCompile(`[^A-Za-z0-9_.-]+`).ReplaceAllString(s, "_")
 }
 
+// collectMode (VERIF_COLLECT=1) keeps enumerations going after a violation
+// and stores one replay per distinct signature: used to survey all defects
+// behind the first one.
+var collectMode = os.Getenv("VERIF_COLLECT") != ""
+var collected = map[string]bool{}
+
 func writeReplay(check string, raw []byte, f *Failure) string {
 	rf := ReplayFile{Property: cfg.Property, Check: check, Sig: f.Sig, Msg: f.Msg, Case: raw}
 	data, _ := json.MarshalIndent(rf, "", " ")
 	p := replayPath(check)
+	if collectMode {
+		p = replayPath(check + "-" + f.Sig)
+	}
 	if err := os.WriteFile(p, data, 0o644); err != nil {
 		fmt.Fprintln(os.Stderr, "vh: cannot write replay:", err)
 	}
@@ -449,17 +458,20 @@ func safeOracle(fn func(), o *Obs) {
 	fn()
 }
 
-var frameRe = regexp.MustCompile(`(?m)^(github\.com/invopop/gobl[^\s(]*)\(`)
-
 // PanicSite extracts the first gobl (non-harness) function from a stack.
 func PanicSite(stack []byte) string {
-	for _, m := range frameRe.FindAllSubmatch(stack, -1) {
-		fn := string(m[1])
-		if strings.Contains(fn, "verifharness") {
+	for _, line := range strings.Split(string(stack), "\n") {
+		if !strings.HasPrefix(line, "github.com/invopop/gobl") || strings.Contains(line, "verifharness") {
 			continue
+		}
+		fn := line
+		if i := strings.LastIndex(fn, "("); i > 0 {
+			fn = fn[:i]
 		}
 		fn = strings.TrimPrefix(fn, "github.com/invopop/gobl/")
 		fn = strings.TrimPrefix(fn, "github.com/invopop/gobl.")
+		// closures: keep the enclosing function only
+		fn = regexp.MustCompile(`\.func\d+(\.\d+)*$`).ReplaceAllString(fn, "")
 		return sanitize(fn)
 	}
 	return "unknown"
@@ -596,6 +608,15 @@ func Enum[C any](name string, iter func(yield func(C) bool), oracle func(c C, o 
 			}
 			r.st.record(name, getRaw, o)
 			if o.fail != nil {
+				if collectMode {
+					if !collected[o.fail.Sig] {
+						collected[o.fail.Sig] = true
+						p := writeReplay(name, getRaw(), o.fail)
+						t.Errorf("VIOLATION sig=%s %s (replay %s)", o.fail.Sig, o.fail.Msg, p)
+					}
+					r.st.Violations++
+					return true
+				}
 				// keep the first (enumeration order = smallest first) case per check
 				if r.st.Violations == 0 {
 					p := writeReplay(name, getRaw(), o.fail)
